@@ -33,7 +33,8 @@ def expand_cases(draw, tier):
         ns.append(max(1, draw(st.one_of(st.sampled_from([1, mx, mx + 1, mx - 1, m * mx, m * mx + 1, m * mx - 1]),
                                         st.integers(1, 5 * mx), st.integers(1, min(10 ** 6, 300 * mx))))))
     return {"mx": mx, "ns": ns, "bsz": draw(st.integers(1, 5)), "wrong": draw(st.integers(-2, 2)),
-            "bits": draw(st.integers(1, 3))}
+            "bits": draw(st.integers(1, 3)),
+            "container": draw(st.sampled_from(["dict", "dict", "counter", "ordered", "shared"])), "twice": draw(st.booleans())}
 
 
 def o_expand(spec):
@@ -62,10 +63,23 @@ def o_expand(spec):
         for t in range(min(s, 4)):
             d[keys[(j + t) % len(keys)]] += s // min(s, 4) + (1 if t < s % min(s, 4) else 0)
         res.append(dict(d))
-    res_snapshot = copy.deepcopy(res)
+    # per-copy results may be any mapping a runner hands back (dict, Counter, OrderedDict), and a memoising runner
+    # hands back the very same object for identical copies
+    kind = spec.get("container", "dict")
+    if kind in ("counter", "shared"):
+        res = [collections.Counter(d) for d in res]
+    elif kind == "ordered":
+        res = [collections.OrderedDict(sorted(d.items(), reverse=True)) for d in res]
+    if kind == "shared":
+        seen = {}
+        res = [seen.setdefault(tuple(sorted(d.items())), d) for d in res]
+    res_snapshot = copy.deepcopy([dict(d) for d in res])
     comb = must(lambda: combine_measurement_counts(res, mult), "combine_measurement_counts")
-    require([sum(c.values()) for c in comb] == list(ns), lambda: f"combined totals {[sum(c.values()) for c in comb]} != requested {ns}")
-    require(res == res_snapshot, "combine_measurement_counts modified its input")
+    require([sum(c.values()) for c in comb] == list(ns), lambda: f"combined totals {[sum(c.values()) for c in comb]} != requested {ns} ({kind} results)")
+    require([dict(d) for d in res] == res_snapshot, f"combine_measurement_counts modified its input ({kind} results)")
+    if spec.get("twice"):
+        again = must(lambda: combine_measurement_counts(res, mult), "combine_measurement_counts (second time)")
+        require([dict(c) for c in again] == [dict(c) for c in comb], "combining the same results a second time gives different totals")
     pos = 0
     for mu, c in zip(mult, comb):
         want = collections.Counter()
@@ -109,6 +123,7 @@ def o_expand(spec):
         cl.append("below_max")
     if k == 0:
         cl.append("empty")
+    cl.append("results:" + kind)
     if k > bsz and k % bsz:
         cl.append("ragged_last_batch")
     return {"classes": cl, "nontrivial": nt}
